@@ -583,6 +583,12 @@ class Models:
             return self.call_external(fn, args, kwargs)
         if fn is len:
             (x,) = args
+            if isinstance(x, PyChoice):
+                res = UNSET
+                for g, alt in reversed(x.alts):
+                    r = self.call(len, [alt], {})
+                    res = r if res is UNSET else ite(g, r, res)
+                return res
             if isinstance(x, SymSeq):
                 return x.length
             if isinstance(x, I.Instance):
@@ -880,6 +886,20 @@ class Models:
             return SymSeq(out, seq.elem, seq.pytype)
         if name == 'find':
             return self.seq_find(seq, *args, **kwargs)
+        if name in ('endswith', 'startswith'):
+            pc = seq.plain_cells()
+            if pc is None:
+                raise CannotEncode(f'{name} on symbolic-extent view')
+            alts = args[0] if isinstance(args[0], tuple) else (args[0],)
+            outs = []
+            for suf in alts:
+                sc = self.as_plain(suf).plain_cells()
+                if len(sc) > len(pc):
+                    outs.append(False)
+                    continue
+                part = pc[len(pc) - len(sc):] if name == 'endswith' else pc[:len(sc)]
+                outs.append(land(*[self.cell_eq(x, y, seq.elem.bits) for x, y in zip(part, sc)]))
+            return simp_bool(lor(*outs))
         if name == 'encode':
             if seq.pytype != 'str':
                 raise CannotEncode('encode of non-str')
